@@ -12,7 +12,7 @@
     c04_payout                  the step that turns an unpaid participation into a paid one is an end-block; it was
                                 paid by ONE settleParticipation call, at which moment ALL bets of the market were
                                 settled; the exact amount to the depositor, the fee routing, every balance change
-    c04_payout_record           what the paid record says (returned, reimbursedFee) is what was paid
+    c04_never_backed            a participation no backing part names: all three sums are 0 (paid its liquidity, fee back)
     c04_paid_frozen             a paid participation record is never modified again, so it is never paid again
     c04_settled_book_all_paid   every participation of a SETTLED book is paid
     c04_fee_refund_without_zero_backing   FINDING: "fee back to the depositor iff cancelled/aborted or never backed a
@@ -21,7 +21,7 @@
 
   Backing parts may carry negative stakes (known finding KF-C03-negative-part); nothing here assumes `0 ≤ f.bet`.
   The invariants are `RetInv` (SgeProofs/Lemmas/ReturnsDefs.lean), `SettleInv` (C01), `ObInv` (C10), bundled as
-  `AllInv` (SgeProofs/Lemmas/ReturnsEnd.lean); the per-call core is `ret_pay_exact` (SgeProofs/Lemmas/ReturnsPay.lean).
+  `RetAll` (SgeProofs/Lemmas/ReturnsEnd.lean); the per-call core is `ret_pay_exact` (SgeProofs/Lemmas/ReturnsPay.lean).
 -/
 import SgeProofs.Lemmas.ReturnsEnd
 import SgeProofs.Properties.C01
@@ -43,19 +43,19 @@ def wonProfitOn (bets : List Bet) (u i : Nat) : Int :=
 def stakedOn (bets : List Bet) (u i : Nat) : Int :=
   ((bets.filter (fun x => x.market == u)).map (fun x => x.stakeOn i)).sum
 
-theorem lostStakes_eq (bets : List Bet) (u i : Nat) : lostStakes bets u i = lostStakeOn bets u i := by
+theorem c04s_lostStakes_eq (bets : List Bet) (u i : Nat) : lostStakes bets u i = lostStakeOn bets u i := by
   unfold lostStakes lostStakeOn
   rw [sumBy_filter]
   have : (fun t : Bet => sumBy (fbAt i) t.fulfs) = (fun t => t.stakeOn i) := funext (fun t => fbAt_sum i t)
   rw [this]
 
-theorem wonProfits_eq (bets : List Bet) (u i : Nat) : wonProfits bets u i = wonProfitOn bets u i := by
+theorem c04s_wonProfits_eq (bets : List Bet) (u i : Nat) : wonProfits bets u i = wonProfitOn bets u i := by
   unfold wonProfits wonProfitOn
   rw [sumBy_filter]
   have : (fun t : Bet => sumBy (fpAt i) t.fulfs) = (fun t => t.profitOn i) := funext (fun t => fpAt_sum i t)
   rw [this]
 
-theorem backedStake_eq (bets : List Bet) (u i : Nat) : backedStake bets u i = stakedOn bets u i := by
+theorem c04s_backedStake_eq (bets : List Bet) (u i : Nat) : backedStake bets u i = stakedOn bets u i := by
   unfold backedStake stakedOn
   have : betStakeAt u i = (fun t : Bet => if (fun x : Bet => x.market == u) t then (fun x : Bet => x.stakeOn i) t else 0) := by
     funext t
@@ -64,7 +64,7 @@ theorem backedStake_eq (bets : List Bet) (u i : Nat) : backedStake bets u i = st
   rw [this, sumBy_filter]
 
 /-- what the settled bets have realised, as two sums over the bet records -/
-theorem real_split (bets : List Bet) (u i : Nat) :
+theorem c04s_real_split (bets : List Bet) (u i : Nat) :
     sumBy (betRealAt u i) bets =
       ((bets.filter (fun x => x.market == u && x.status == BS_SETTLED && x.result == BR_LOST)).map (fun x => x.stakeOn i)).sum
       - ((bets.filter (fun x => x.market == u && x.status == BS_SETTLED && x.result == BR_WON)).map (fun x => x.profitOn i)).sum := by
@@ -80,16 +80,16 @@ theorem real_split (bets : List Bet) (u i : Nat) :
 -- the invariants over histories
 
 /-- the empty chain satisfies all whole-history invariants -/
-theorem allInv_init (p : Params) (bal : List (Nat × Int)) (h t : Nat)
+theorem retAll_init (p : Params) (bal : List (Nat × Int)) (h t : Nat)
     (h0 : getBal bal ACC_POOL = 0 ∧ getBal bal ACC_BETFEE = 0 ∧ getBal bal ACC_HOUSEFEE = 0) :
-    AllInv (initState p bal h t) :=
+    RetAll (initState p bal h t) :=
   ⟨settleInv_init p bal h t h0, obInv_init p bal h t, retInv_init p bal h t⟩
 
 /-- C04.f  In every reachable state the invariants `SettleInv` (C01), `ObInv` (C10) and `RetInv` hold. -/
 theorem c04_invariants (p : Params) (bal : List (Nat × Int)) (h t : Nat) (ops : List Op)
     (h0 : getBal bal ACC_POOL = 0 ∧ getBal bal ACC_BETFEE = 0 ∧ getBal bal ACC_HOUSEFEE = 0)
-    (hwf : ∀ op ∈ ops, op.userSigned') : AllInv (run (initState p bal h t) ops) :=
-  run_allInv _ ops (allInv_init p bal h t h0) hwf
+    (hwf : ∀ op ∈ ops, op.userSigned') : RetAll (run (initState p bal h t) ops) :=
+  run_retAll _ ops (retAll_init p bal h t h0) hwf
 
 /-- C04.g  The inductive step: every operation — message, authz / bank / parameter traffic, new block, end-block —
     keeps "realised profit = what the settled bets say". It moves only inside `Settle`, where BettorLoses adds the
@@ -113,7 +113,7 @@ theorem c04_realised_profit_eq (p : Params) (bal : List (Nat × Int)) (h t : Nat
   intro s b hb pt hpt
   have hO : ObInv s := run_obInv _ ops (obInv_init p bal h t)
   have hR : RetInv s := run_retInv _ ops (obInv_init p bal h t) (retInv_init p bal h t)
-  rw [hR.prof b hb pt.idx pt (Book.mem_getPart (hO.qinv b hb).s.sP hpt), real_split]
+  rw [hR.prof b hb pt.idx pt (Book.mem_getPart (hO.qinv b hb).s.sP hpt), c04s_real_split]
 
 -- ---------------------------------------------------------------------------------------------
 -- the payout
@@ -152,7 +152,7 @@ theorem c04_payout (p : Params) (bal : List (Nat × Int)) (h t : Nat) (ops : Lis
           pt' = { q with returned := pay + (if toDep then pt.fee else 0),
                          reimbursedFee := (if toDep then pt.fee else pt.reimbursedFee), isSettled := true } := by
   intro s s' b hb pt hpt hun b' hb' hu pt' hpt' hi hs'
-  have hA : AllInv s := c04_invariants p bal h t ops h0 hwf
+  have hA : RetAll s := c04_invariants p bal h t ops h0 hwf
   obtain ⟨hend, q, hq, hpaid⟩ := step_paid s op hA hop b hb pt hpt hun b' hb' hu pt' hpt' hi hs'
   refine ⟨hend, ?_⟩
   obtain ⟨τ, bk, m, r, e1, e2, e3, e4, e5, c1, c2, c3, c4, c5, c6, c7, _⟩ := ret_paidAt_exact hpaid
@@ -161,7 +161,7 @@ theorem c04_payout (p : Params) (bal : List (Nat × Int)) (h t : Nat) (ops : Lis
   have hqf : q.fee = pt.fee := by rw [hq]
   have hqa : q.addr = pt.addr := by rw [hq]
   have hqr : q.reimbursedFee = pt.reimbursedFee := by rw [hq]
-  rw [hqi, lostStakes_eq, wonProfits_eq] at c3
+  rw [hqi, c04s_lostStakes_eq, c04s_wonProfits_eq] at c3
   have hm : getMarket s b.uid = some m := by
     have := getMarket_congr e2 b.uid
     rw [← this]; exact e3
@@ -171,11 +171,11 @@ theorem c04_payout (p : Params) (bal : List (Nat × Int)) (h t : Nat) (ops : Lis
   intro pay hpay toDep htoDep
   have hpayq : payAmount s'.bets b.uid m q = pay := by
     unfold payAmount
-    rw [hpay, hqi, hql, lostStakes_eq, wonProfits_eq]
+    rw [hpay, hqi, hql, c04s_lostStakes_eq, c04s_wonProfits_eq]
   have hfee : q.feeToDepositor m = toDep := by
     rw [htoDep]
     have := c5
-    rw [hqi, backedStake_eq] at this
+    rw [hqi, c04s_backedStake_eq] at this
     by_cases hc : q.feeToDepositor m = true
     · rw [hc]; exact (decide_eq_true (this.mp hc)).symm
     · have hc' : q.feeToDepositor m = false := by simpa using hc
@@ -196,6 +196,47 @@ theorem c04_payout (p : Params) (bal : List (Nat × Int)) (h t : Nat) (ops : Lis
     · simp
     · simp
 
+theorem c04s_stakeOn_zero (x : Bet) (i : Nat) (h : ∀ f ∈ x.fulfs, f.idx ≠ i) : x.stakeOn i = 0 ∧ x.profitOn i = 0 := by
+  have : x.fulfs.filter (fun f => f.idx == i) = [] := by
+    rw [List.filter_eq_nil_iff]
+    intro f hf
+    simpa using h f hf
+  unfold Bet.stakeOn Bet.profitOn
+  rw [this]
+  exact ⟨rfl, rfl⟩
+
+theorem c04s_sum_map_zero {α : Type} (l : List α) (g : α → Int) (h : ∀ x ∈ l, g x = 0) : (l.map g).sum = 0 := by
+  induction l with
+  | nil => rfl
+  | cons x xs ih =>
+    rw [List.map_cons, List.sum_cons, h x (List.mem_cons_self ..), ih (fun y hy => h y (List.mem_cons_of_mem _ hy))]
+    rfl
+
+/-- C04.i'  The true direction of the fee rule: a participation that never backed a bet — no backing part of any bet
+    of the market names it — has no stake, no lost stakes and no winnings to pay in the sums of `c04_payout`: it is
+    paid exactly its liquidity, and the fee goes back to the depositor (`toDep = true`). -/
+theorem c04_never_backed (bets : List Bet) (u i : Nat) (h : ∀ x ∈ bets, x.market = u → ∀ f ∈ x.fulfs, f.idx ≠ i) :
+    stakedOn bets u i = 0 ∧ lostStakeOn bets u i = 0 ∧ wonProfitOn bets u i = 0 := by
+  unfold stakedOn lostStakeOn wonProfitOn
+  refine ⟨c04s_sum_map_zero _ _ ?_, c04s_sum_map_zero _ _ ?_, c04s_sum_map_zero _ _ ?_⟩
+  · intro x hx
+    rw [List.mem_filter] at hx
+    exact (c04s_stakeOn_zero x i (h x hx.1 (by simpa using hx.2))).1
+  · intro x hx
+    rw [List.mem_filter] at hx
+    have hm : x.market = u := by
+      have := hx.2
+      simp only [Bool.and_eq_true, beq_iff_eq] at this
+      exact this.1
+    exact (c04s_stakeOn_zero x i (h x hx.1 hm)).1
+  · intro x hx
+    rw [List.mem_filter] at hx
+    have hm : x.market = u := by
+      have := hx.2
+      simp only [Bool.and_eq_true, beq_iff_eq] at this
+      exact this.1
+    exact (c04s_stakeOn_zero x i (h x hx.1 hm)).2
+
 -- ---------------------------------------------------------------------------------------------
 -- exactly once, nothing later
 
@@ -213,9 +254,9 @@ theorem c04_paid_frozen (p : Params) (bal : List (Nat × Int)) (h t : Nat) (ops 
       ∃ b' ∈ s'.books, b'.uid = b.uid ∧ pt ∈ b'.parts ∧
         (∀ b'' ∈ s'.books, b''.uid = b.uid → b'' = b') ∧ (∀ q ∈ b'.parts, q.idx = pt.idx → q = pt) := by
   intro s s' b hb pt hpt hs
-  have hA : AllInv s := c04_invariants p bal h t ops h0 (fun o ho => hwf o (List.mem_append_left _ ho))
+  have hA : RetAll s := c04_invariants p bal h t ops h0 (fun o ho => hwf o (List.mem_append_left _ ho))
   have e : s' = run s later := run_split _ ops later
-  have hA' : AllInv s' := c04_invariants p bal h t (ops ++ later) h0 hwf
+  have hA' : RetAll s' := c04_invariants p bal h t (ops ++ later) h0 hwf
   obtain ⟨b', hb', hu, hp'⟩ := run_keepsPaid s later hA (fun o ho => hwf o (List.mem_append_right _ ho)) b hb pt hpt hs
   rw [← e] at hb'
   refine ⟨b', hb', hu, hp', ?_, ?_⟩
@@ -233,7 +274,7 @@ theorem c04_settled_book_all_paid (p : Params) (bal : List (Nat × Int)) (h t : 
     (hwf : ∀ o ∈ ops, o.userSigned') :
     let s := run (initState p bal h t) ops
     ∀ b ∈ s.books, b.status = OB_SETTLED → ∀ pt ∈ b.parts, pt.isSettled = true :=
-  run_paidInv _ ops (allInv_init p bal h t h0) (fun b hb => by cases hb) hwf
+  run_paidInv _ ops (retAll_init p bal h t h0) (fun b hb => by cases hb) hwf
 
 /-- C04.l  Paying never happens outside an end-block, and a participation is paid only in a book that left the active
     state; conversely a paid participation was not paid before: `settleParticipation` fails on a paid record. -/
